@@ -7,6 +7,7 @@ SyslineReader answers for every offset and every block size down to 1 against a
 reference splitter, in forward, backward and random query orders.
 """
 import os
+import re
 
 from vlib import cases, core, gen
 
@@ -156,10 +157,45 @@ def run_inprocess(ctx, rng):
                           info={"argv": r.argv})
 
 
+def run_miri(ctx, rng):
+    """Block reading + line assembly (no regex) interpreted by Miri: LineReader over tiny files at every block size; Miri
+    checks every slice / pointer operation on the way, the harness compares each line with the reference splitter."""
+    import subprocess
+    argv, env, cwd = core.miri_cmd()
+    d = ctx.casedir("miri")
+    jobs = []
+    for i in range(ctx.pick(16, 120)):
+        n = rng.choice([1, 2, 5, 9, 17, 33])
+        data = bytes(rng.choice(b"ab\n\n\r\x00\xff") for _ in range(n))
+        path = gen.write(os.path.join(d, "m%04d.txt" % i), data)
+        jobs.append((path, n))
+
+    def one(j):
+        path, n = j
+        return subprocess.run(argv + ["lines", path, "1", str(n + 1)], cwd=cwd, env=env, stdout=subprocess.PIPE, stderr=subprocess.PIPE, timeout=1800)
+    for (path, n), p in zip(jobs, core.pmap(one, jobs)):
+        out = p.stdout.decode("utf-8", "replace").strip()
+        err = p.stderr.decode("utf-8", "replace")
+        data = open(path, "rb").read()
+        if p.returncode == 0 and out.startswith("lines "):
+            q = int(out.split("queries ")[1].split()[0])
+            ctx.evaluated(n + 1, ("miri-lines", data))
+            ctx.count("LineReader queries interpreted under Miri", q)
+            continue
+        if "Undefined Behavior" in err:
+            msg = err.split("Undefined Behavior: ")[1].splitlines()[0]
+            ctx.violation("C02|miri|%s" % re.sub(r"alloc\d+|0x[0-9a-f]+|\d+", "N", msg)[:100], "Miri: %s" % msg[:200], files={"input": data, "miri.stderr": err[-5000:].encode()})
+        elif "mismatches" in out:
+            ctx.violation("C02|miri|find_line-differs-from-reference", out[:200], files={"input": data})
+        else:
+            ctx.inconc("miri process failed without a report (rc %s)" % p.returncode)
+
+
 def run(ctx):
     s4 = core.build_s4()
     rng = ctx.rng
     run_inprocess(ctx, rng)
+    run_miri(ctx, rng)
     bszs = ctx.pick(BLOCKSZS_QUICK, BLOCKSZS_THOROUGH)
     ncases = ctx.pick(700, 12000)
     ctx.rule = ("boundary-directed text logs (targets k*B-1/k*B/k*B+1 for line ends and message starts, lines of B-1/B/B+1/2B+1/3B+1, "
